@@ -38,6 +38,10 @@ ShapesOf(ranks, exts) == UNION {[1..r -> exts] : r \in ranks}
 NormAxis(a, r) == IF a < 0 THEN a + r ELSE a
 AxisOK(a, r) == a >= -r /\ a <= r - 1
 
+\* Let(x, F): F applied to the VALUE of x.  TLC passes operator arguments lazily and re-evaluates them at every use inside
+\* recursive operators; a variable bound by a set constructor holds an evaluated value, so this forces one evaluation.
+Let(x, F(_)) == CHOOSE r \in {F(v) : v \in {x}} : TRUE
+
 \* sequence helpers
 SeqMap(F(_), s) == [i \in 1..Len(s) |-> F(s[i])]
 Range(s) == {s[i] : i \in 1..Len(s)}
